@@ -581,6 +581,7 @@ class Unit:
                 ed.add(sub['a'], sub['b'], '', 'D1')
                 self.rule('D1', path, line_of(text, sub['hdr_a']), 'dropped fn %s' % qual)
                 return
+        forced = qname in getattr(self, 'force_external', set())
         ov = None
         for idx, fo in enumerate(self.fn_overlays):
             if fo['file'] == path and fo['name'] == name and re.search(fo.get('item', ''), item_key):
@@ -588,6 +589,8 @@ class Unit:
                     raise LostAnchor("two overlays match %s" % qname)
                 ov = fo
                 self.used_overlays.add(idx)
+        if ov is None and forced:
+            ov = dict(file=path, name=name, mode='external_body')
         if ov is None:
             self.report['functions'].append(dict(fn=qname, contract=False, mode='verified-no-contract'))
             self.obl['safety:' + qname] = dict(owner=f.get('safety_owner'), label='safety', fn=qname, kind='safety')
@@ -629,6 +632,11 @@ class Unit:
             ed.add(ty_b - trail, ty_b - trail, ')', 'N4:ret')
         clauses = []
         mode = ov.get('mode', 'verify')
+        if forced and mode == 'verify':
+            # the body uses a construct Verus cannot take: keep the contract (callers are still checked against it),
+            # skip the body; the runner treats the function as undecided
+            mode = 'external_body'
+            self.report.setdefault('lost_anchors', []).append(dict(fn=qname, kind='unsupported-construct', anchor='body'))
         tagbase = "%s#" % qname
         contract_text = ''
         reqs = ov.get('requires', [])
@@ -675,12 +683,20 @@ class Unit:
         self.obl['safety:' + qname] = dict(owner=ov.get('safety_owner', f.get('safety_owner')), label='safety',
                                            fn=qname, kind='safety', assumed=(mode != 'verify'))
         # loops
-        if sub['body_open'] is not None:
+        if sub['body_open'] is not None and not (forced and ov.get('mode', 'verify') == 'verify'):
             body_a, body_b = sub['body_open'], sub['b']
             for li, lp in enumerate(ov.get('loop', [])):
                 hdr = lp['header']
                 occ = lp.get('occurrence', 1)
-                pos = self.find_occurrence(text, mask, hdr, occ, body_a, body_b, qname)
+                try:
+                    pos = self.find_occurrence(text, mask, hdr, occ, body_a, body_b, qname)
+                except LostAnchor as e:
+                    # proof text no longer matches the code: keep going without it; the function becomes
+                    # "undecided" (runner: only a natively replayed counterexample can raise an alarm)
+                    self.report.setdefault('lost_anchors', []).append(dict(fn=qname, kind='loop', anchor=hdr))
+                    if not any(t == tagbase + 'nodecreases' for (_, _, _, t) in ed.edits):
+                        ed.edits.append((sub['hdr_a'], sub['hdr_a'], '#[verifier::exec_allows_no_decreases_clause]\n', tagbase + 'nodecreases'))
+                    continue
                 brace = pos + len(hdr) - 1
                 if text[brace] != '{':
                     raise LostAnchor("loop header must end with '{': %r" % hdr)
@@ -698,6 +714,12 @@ class Unit:
                 tag = tagbase + 'hint%d' % (hi + 1)
                 self.obl[tag] = dict(owner=h.get('owner', ov.get('safety_owner', f.get('safety_owner'))),
                                      label='hint%d' % (hi + 1), fn=qname, kind='hint')
+                anchor = h.get('after', h.get('before', h.get('replace')))
+                try:
+                    self.find_occurrence(text, mask, anchor, occ, body_a, body_b, qname)
+                except LostAnchor as e:
+                    self.report.setdefault('lost_anchors', []).append(dict(fn=qname, kind='hint', anchor=anchor))
+                    continue
                 if 'after' in h:
                     pos = self.find_occurrence(text, mask, h['after'], occ, body_a, body_b, qname)
                     at = pos + len(h['after'])
@@ -743,9 +765,11 @@ class Unit:
         return lm
 
 
-def build_unit(unit_name, outdir):
+def build_unit(unit_name, outdir, force_external=None):
     unit_path = os.path.join(CONTRACTS, 'units', unit_name + '.toml')
-    u = Unit(unit_path).build()
+    u = Unit(unit_path)
+    u.force_external = set(force_external or [])
+    u.build()
     os.makedirs(outdir, exist_ok=True)
     out_rs = os.path.join(outdir, unit_name + '.rs')
     with open(out_rs, 'w') as f:
